@@ -1133,6 +1133,11 @@ class Interp:
             if name in mod.classes:
                 return ClassV(mod.classes[name])
             if name in mod.imports:
+                mname_, _, attr_ = mod.imports[name].rpartition(".")
+                src_ = self.P.modules.get(mname_)
+                if src_ is not None and src_ is not mod and attr_ and (attr_ in src_.rebinds or attr_ in src_.constants or attr_ in getattr(src_, "alternatives", {})) and attr_ not in src_.functions and attr_ not in src_.classes:
+                    # imported from a module of the package that itself (re-)binds the name: what that module holds
+                    return self._global(attr_, src_)
                 q = self.P.canonical(mod.imports[name])
                 if q in self.P.functions:
                     v = FuncV(self.P.functions[q], None)
@@ -1140,20 +1145,35 @@ class Interp:
                     v = ClassV(self.P.classes[q])
                 else:
                     v = ExtV(q)
+                upto = getattr(self, "_modline", None)
                 for e in mod.rebinds.get(name, ()):  # imported name re-bound at module level: `f = wrap(f)`
+                    if upto is not None and getattr(e, "lineno", 0) >= upto:
+                        continue  # a module-level statement sees the bindings made above it only
                     renv = Env(None, mod, None)
                     renv.set(name, v)
-                    v = self.eval(e, renv)
+                    old_line, self._modline = upto, getattr(e, "lineno", None)
+                    try:
+                        v = self.eval(e, renv)
+                    finally:
+                        self._modline = old_line
                 return v
             if name in mod.constants:
                 ck = (mod.name, name)
                 if ck not in self._mod_cache:
                     self._mod_cache[ck] = sym_num(f"{mod.name}.{name}")  # recursion guard
                     genv = Env(None, mod, None)
+                    old_line, self._modline = getattr(self, "_modline", None), getattr(mod.constants[name], "lineno", None)
+                    n_dec = len(self.decider.trace) if self.decider is not None else 0
                     try:
                         self._mod_cache[ck] = self.eval(mod.constants[name], genv)
                     except AnalysisError:
                         pass
+                    finally:
+                        self._modline = old_line
+                    if self.decider is not None and len(self.decider.trace) != n_dec:
+                        # the value depends on a decision of this trace partition (an environment switch, a version test
+                        # at import): it is this partition's value only
+                        return self._mod_cache.pop(ck)
                 return self._mod_cache[ck]
         if name in ("True", "False"):
             return BoolV("const", name == "True")
@@ -2269,6 +2289,13 @@ class Interp:
             return Num(nf.fn("intersection", self.to_nf(recv), *[self.to_nf(a) for a in args]))
         if isinstance(recv, StrV):
             return StrV("<str>")
+        if isinstance(recv, ExtObj) and recv.qual == "__dict__" and meth == "update" and len(args) == 1 and isinstance(args[0], DictV) and not args[0].fallback:
+            inst = recv.args["of"]
+            for k, v in args[0].items.items():  # obj.__dict__.update(state): one attribute store per key
+                self.store_attribute(inst, k, v, node, raw=True)
+            return NoneV()
+        if isinstance(recv, ExtObj) and recv.qual == "__dict__" and meth == "copy" and not args and isinstance(recv.args["of"], Inst):
+            return DictV(dict(recv.args["of"].attrs))  # a snapshot of the instance dictionary
         if isinstance(recv, ExtObj) and recv.qual == "__dict__" and meth == "pop" and args and isinstance(args[0], StrV):
             inst = recv.args["of"]
             self.log("del_attr", node, base=inst, attr=args[0].s)
